@@ -67,7 +67,7 @@ def run(tier, seed):
         fn = d.DISTANCES[nm]
         dom = ax[nm][0]
         worst = None
-        for L in range(1, 7):
+        for L in (1, 2, 3, 4, 5, 6, 8):
             vs = M.vectors(rng, np, dom, L, 40 if thorough else 8)
             pairs = [(rng.choice(vs), rng.choice(vs)) for _ in range(300 if thorough else 60)]
             pairs += [(v, v) for v in vs[:10]] + ([(v, [2 * a for a in v]) for v in vs[:6]] if dom != "simplex" else [])
